@@ -363,10 +363,6 @@ var (
 	fmt.Println(s.F(1))`}, min: 1},
 	{kind: "lowercase-pkg-typeconv", weight: 2, imports: []string{"fmt", "time"},
 		lines: []string{`fmt.Println(time.Duration(5))`}, min: 1},
-	{kind: "fmt-value-in-composite", weight: 2, imports: []string{"fmt"},
-		lines: []string{`fs := []func(a ...interface{}) (int, error){fmt.Println, fmt.Print}
-	fs[0]("slot0")
-	fs[1]("slot1\n")`}, min: 1},
 	{kind: "lambda-untyped-param", weight: 2, imports: []string{"fmt"},
 		lines: []string{`anyOf(func(x int) int { return x })
 	fmt.Println("after")`}, min: 1},
@@ -612,6 +608,20 @@ func init() { fmt.Println("init") }
 func main() {
 	var a = mk("a")
 	fmt.Println("main", a)
+}
+`
+	}, nil))
+	// a fmt function used as a value inside a composite literal: the rewritten builtin is emitted
+	// unresolved by the compiler (the generated Go does not build)
+	ps = append(ps, mk("fmtvaluecomposite", "fmt-value-in-composite", 0, func(calls string) string {
+		return `package main
+
+import "fmt"
+
+func main() {
+	fs := []func(a ...interface{}) (int, error){fmt.Println, fmt.Print}
+	fs[0]("slot0")
+	fs[1]("slot1\n")
 }
 `
 	}, nil))
